@@ -48,6 +48,8 @@ MutNoEnd    == "noend"       \* no End on the client when the open write fails
 MutDupEnd   == "dupend"      \* End emitted by newStream's defer and by the read loop
 MutEofNil   == "eofnil"      \* StatsEndRPC's io.EOF exemption with a handler returning io.EOF
 MutDeadOpen == "deadopen"    \* NewStream on a failed connection returns before Begin
+MutCursor   == "cursor"      \* chain walked by one closure with a forward-only cursor (grpc-go's first chain builder)
+MutShadow   == "shadow"      \* invoke: the decode error of the reply is not the error the deferred End reports
 MaxS2 == 2
 MaxC1 == 1
 MaxH2 == 2
@@ -78,7 +80,7 @@ AInit ==
 NewRpc(kind, md, req, causes) ==
   [kind |-> kind, cause |-> causes,
    cp |-> [n |-> cf.cn, depth |-> 0, ph |-> "down", a |-> md, b |-> req],
-   sp |-> [n |-> cf.sn, depth |-> 0, ph |-> "idle", a |-> "", b |-> "", ran |-> FALSE],
+   sp |-> [n |-> cf.sn, depth |-> 0, ph |-> "idle", a |-> "", b |-> "", ran |-> FALSE, short |-> FALSE],
    wired |-> (cf.cn = 0), wa |-> md, wb |-> req,   \* what was handed to goat's Invoke / NewStream
    opened |-> "none", done |-> FALSE, settled |-> FALSE,
    csucc |-> "?", ssucc |-> "?",                    \* did the RPC succeed, as each side sees it
@@ -98,6 +100,14 @@ CanBack(p, i, a, b) == p.ph = "up" /\ p.depth = i + 1 /\ a = p.a /\ b = p.b
 DoBack(p) == [p EXCEPT !.ph = "back"]
 CanExit(p, i) == p.ph = "back" /\ p.depth = i + 1
 DoExit(p, a, b) == [p EXCEPT !.ph = "up", !.depth = @ - 1, !.a = a, !.b = b]
+\* What a SERVER stage is free to do besides calling on once (an interceptor is user code): call its
+\* handler again after it came back (a retrying / hedging stage: everything below it runs again, from
+\* the next stage on, with what is handed on this time), or not at all (a refusing stage: it returns
+\* its own result and nothing below it runs).
+CanRecall(p, i) == p.ph = "back" /\ p.depth = i + 1
+DoRecall(p, a, b) == [p EXCEPT !.ph = "down", !.a = a, !.b = b, !.ran = FALSE]
+CanRefuse(p, i) == p.ph = "in" /\ p.depth = i + 1
+DoRefuse(p, a, b) == [p EXCEPT !.ph = "up", !.depth = @ - 1, !.a = a, !.b = b, !.short = TRUE]
 
 \* the server pipeline starts with what the client handed to goat
 SrvP(r) == IF r.sp.ph = "idle" THEN [r.sp EXCEPT !.ph = "down", !.a = r.wa, !.b = r.wb] ELSE r.sp
@@ -118,7 +128,9 @@ UpOK(r, err, reply) ==
 \* goat's Invoke (unary: result of the RPC) / NewStream (result of the open) returned (err, reply)
 CoreRet(r, c, err, reply) ==
   IF r.kind = "unary"
-    THEN (UpOK(r, err, reply)) = TRUE /\ EndsAgree("c", c, err = "ok")
+    THEN /\ (UpOK(r, err, reply)) = TRUE /\ EndsAgree("c", c, err = "ok")
+         \* a request the codec cannot encode, a reply it cannot decode: the call cannot have succeeded
+         /\ (r.cause \cap {"badreq", "badreply"} # {} => err # "ok")
     ELSE (err = "ok" \/ r.cause # {}) = TRUE /\ (err # "ok" => EndsAgree("c", c, FALSE))
 CoreSucc(r, err) == IF r.kind = "unary" \/ err # "ok" THEN YN(err) ELSE r.csucc
 
@@ -129,7 +141,8 @@ ACfg(e) ==
 ACall(e) ==
   /\ ~Known(e.c) /\ ph = "run"
   /\ rp' = rp @@ (e.c :> NewRpc(e.res, e.msg, e.pay,
-                                 (IF e.x = "dl" THEN {"deadline"} ELSE IF e.x = "pc" THEN {"cancel"} ELSE {})
+                                 (IF e.x = "dl" THEN {"deadline"} ELSE IF e.x = "pc" THEN {"cancel"}
+                                  ELSE IF e.x = "bq" THEN {"badreq"} ELSE IF e.x = "br" THEN {"badreply"} ELSE {})
                                  \cup (IF flt THEN {"fault"} ELSE {})))
   /\ UNCHANGED <<cf, flt, tg, cs, ph>>
 
@@ -166,8 +179,10 @@ AIcptCall(e) ==
                    SetR(e.c, IF p.depth = p.n
                                THEN [r EXCEPT !.cp = p, !.wired = TRUE, !.wa = e.msg, !.wb = e.pay]
                                ELSE [r EXCEPT !.cp = p])
-         ELSE /\ CanCall(r.sp, e.n)
-              /\ SetR(e.c, [r EXCEPT !.sp = DoCall(@, e.msg, e.pay)])
+         ELSE \/ /\ CanCall(r.sp, e.n)
+                 /\ SetR(e.c, [r EXCEPT !.sp = DoCall(@, e.msg, e.pay)])
+              \/ /\ CanRecall(r.sp, e.n)
+                 /\ SetR(e.c, [r EXCEPT !.sp = DoRecall(@, e.msg, e.pay)])
   /\ UNCHANGED <<cf, flt, tg, cs, ph>>
 
 AIcptBack(e) ==
@@ -191,8 +206,8 @@ AIcptExit(e) ==
        IF e.k = "c"
          THEN /\ CanExit(r.cp, e.n)
               /\ SetR(e.c, [r EXCEPT !.cp = DoExit(@, e.msg, e.pay)])
-         ELSE /\ CanExit(r.sp, e.n)
-              /\ LET p == DoExit(r.sp, e.msg, e.pay) IN
+         ELSE /\ CanExit(r.sp, e.n) \/ CanRefuse(r.sp, e.n)
+              /\ LET p == IF CanRefuse(r.sp, e.n) THEN DoRefuse(r.sp, e.msg, e.pay) ELSE DoExit(r.sp, e.msg, e.pay) IN
                    \* leaving stage 0: this is the RPC's result as the server sees it
                    /\ (p.depth = 0 => EndsAgree("s", e.c, e.msg = "ok"))
                    /\ SetR(e.c, [r EXCEPT !.sp = p, !.ssucc = IF p.depth = 0 THEN YN(e.msg) ELSE @])
@@ -338,7 +353,7 @@ ASettled(e) ==
   /\ LET c == e.c IN
        /\ rp[c].done
        \* a chain that was entered was left again, through the handler
-       /\ rp[c].sp.ph = "idle" \/ (rp[c].sp.ph = "up" /\ rp[c].sp.depth = 0 /\ rp[c].sp.ran)
+       /\ rp[c].sp.ph = "idle" \/ (rp[c].sp.ph = "up" /\ rp[c].sp.depth = 0 /\ (rp[c].sp.ran \/ rp[c].sp.short))
        \* every Begin of this RPC has its End
        /\ \A k \in DOMAIN tg : tg[k].c = c => tg[k].ph = "ended"
        \* every RPC, whatever its outcome, is seen by every client-side handler ...
@@ -424,7 +439,7 @@ MarkErr(err, side, i) == IF err = "ok" THEN "ok" ELSE err \o Mark(side, i)
 
 \* the handler: returns at once (ok / herr / eof) or waits for its context (cancel) and then
 \* reports it; for a stream one message is exchanged first (hop == the wrappers' Wrap events)
-HandlerErr(q) == CASE q.o = "ok" -> "ok" [] q.o = "herr" -> "13:e" [] q.o = "eof" -> "2:EOF" [] OTHER -> "1:cc"
+HandlerErr(q) == CASE q.o \in {"ok", "badreply"} -> "ok" [] q.o = "herr" -> "13:e" [] q.o = "eof" -> "2:EOF" [] OTHER -> "1:cc"
 
 Hops(q, dir) ==
   IF dir = "in"
@@ -468,13 +483,25 @@ GetChain(q, curr, md, req) ==
     ELSE IF curr + 1 >= q.sn     \* interceptors[curr+1]: index out of range (only reachable in a mutant)
            THEN [log |-> <<Ev("Crash", q.c, curr, "", "", "", "", 0, -1, "")>>, err |-> "crash", reply |-> "-"]
            ELSE Stage(q, curr + 1, md, req)
+\* The harness's stage i calls its handler once; stage q.rt calls it a second time after it came back
+\* (a retrying stage; the same closure, so with the forward-only cursor of Mut = "cursor" the second
+\* call resumes at the last interceptor); stage q.dn does not call it at all.
 Stage(q, i, md, req) ==
   LET md2 == md \o Mark("s", i)
       rq2 == IF q.kind = "unary" THEN req \o Mark("s", i) ELSE req
-      r == GetChain(q, IF Mut = "skipsecond" /\ i = 0 THEN 1 ELSE i, md2, rq2)
+      r1 == GetChain(q, IF Mut = "skipsecond" /\ i = 0 THEN 1 ELSE i, md2, rq2)
+      r == IF i # q.rt THEN r1
+           ELSE IF Mut = "cursor" /\ i < q.sn - 1 THEN Stage(q, q.sn - 1, md2, rq2)
+           ELSE r1
       er2 == MarkErr(r.err, "s", i)
       rp2 == IF r.reply = "-" THEN "-" ELSE r.reply \o Mark("s", i) IN
+  IF i = q.dn
+    THEN [log |-> <<Ev("IcptEnter", q.c, i, "s", q.kind, md, req, 0, -1, ""), Ev("IcptExit", q.c, i, "s", q.kind, "7:deny", "-", 0, -1, "")>>,
+          err |-> "7:deny", reply |-> "-"]
+    ELSE
   [log |-> <<Ev("IcptEnter", q.c, i, "s", q.kind, md, req, 0, -1, ""), Ev("IcptCall", q.c, i, "s", q.kind, md2, rq2, 0, -1, "")>>
+           \o (IF i = q.rt THEN r1.log \o <<Ev("IcptBack", q.c, i, "s", q.kind, r1.err, r1.reply, 0, -1, ""),
+                                              Ev("IcptCall", q.c, i, "s", q.kind, md2, rq2, 0, -1, "")>> ELSE <<>>)
            \o r.log
            \o <<Ev("IcptBack", q.c, i, "s", q.kind, r.err, r.reply, 0, -1, ""), Ev("IcptExit", q.c, i, "s", q.kind, er2, rp2, 0, -1, "")>>,
    err |-> er2, reply |-> rp2]
@@ -505,6 +532,12 @@ Invoke(q, md, req) ==
       s == SrvUnary(q, md, req) IN
   CASE q.o = "cwrite" ->     \* CallUnaryMethod: conn.Write fails
          [log |-> pre \o StatsEnd(q, "c", "2:w"), err |-> "2:w", reply |-> "-", late |-> <<>>]
+    [] q.o = "badreq" ->     \* codec.Marshal(args) fails: return before OutHeader / OutPayload
+         [log |-> StatsStart(q, "c") \o StatsEnd(q, "c", "2:enc"), err |-> "2:enc", reply |-> "-", late |-> <<>>]
+    [] q.o = "badreply" ->   \* codec.Unmarshal(reply) fails: logged, InPayload all the same, the error is returned
+         [log |-> pre \o s.log \o StatsAll(q, "c", "InHeader") \o StatsAll(q, "c", "InPayload")
+                  \o StatsEnd(q, "c", IF Mut = "shadow" THEN "ok" ELSE "2:dec"),
+          err |-> "2:dec", reply |-> "-", late |-> <<>>]
     [] q.o = "cancel" ->     \* CallUnaryMethod: <-ctx.Done()
          [log |-> pre \o UpTo(s.log, "Park") \o <<Ev("Cancel", q.c, 0, "", "", "", "", 0, -1, "")>> \o StatsEnd(q, "c", "1:cc"),
           err |-> "1:cc", reply |-> "-", late |-> From(s.log, "Park")]
@@ -561,7 +594,8 @@ Program(q) ==
                     \o Over(q.sh, LAMBDA j : <<Ev("ConnStat", 0, j, "s", kind, "", "", 0, -1, "")>>) IN
   <<Ev("Cfg", q.cn, q.ch, "", "", "", "", q.sn, q.sh, "")>> \o conn("Begin")
   \o (IF q.o \in {"cwrite", "deadopen"} THEN <<Ev("Fault", 0, 0, "cwrite", "", "", "", 0, -1, "")>> ELSE <<>>)
-  \o <<Ev("Call", q.c, 0, "", q.kind, "c", IF q.kind = "unary" THEN "q" ELSE "-", 0, -1, "")>>
+  \o <<Ev("Call", q.c, 0, "", q.kind, "c", IF q.kind = "unary" THEN "q" ELSE "-", 0, -1,
+          IF q.o = "badreq" THEN "bq" ELSE IF q.o = "badreply" THEN "br" ELSE "")>>
   \o r.log
   \o (IF q.kind = "unary"
         THEN <<Ev("RpcDone", q.c, 0, "", "", r.err, r.reply, 0, -1, "")>> \o r.late
@@ -571,7 +605,15 @@ Program(q) ==
 
 Outcomes == {"ok", "herr", "cancel", "cwrite"}
            \cup (IF Mut = "eofnil" THEN {"eof"} ELSE {}) \cup (IF Mut = "deadopen" THEN {"deadopen"} ELSE {})
-Params == [c : {1}, kind : {"unary", "stream"}, o : Outcomes, cn : 0..MaxC, sn : 0..MaxS, ch : 1..MaxH, sh : 1..MaxH]
+Params ==
+  [c : {1}, kind : {"unary", "stream"}, o : Outcomes, cn : 0..MaxC, sn : 0..MaxS, ch : 1..MaxH, sh : 1..MaxH, rt : {-1}, dn : {-1}]
+  \* a message the codec refuses on the way out, a reply it refuses on the way in
+  \cup [c : {1}, kind : {"unary"}, o : {"badreq", "badreply"}, cn : 0..MaxC, sn : 0..MaxS, ch : 1..MaxH, sh : 1..MaxH, rt : {-1}, dn : {-1}]
+  \* a server stage that calls its handler twice, one that does not call it
+  \cup {q \in [c : {1}, kind : {"unary"}, o : {"ok", "herr"}, cn : {0, MaxC}, sn : 1..MaxS, ch : {1}, sh : {1, MaxH},
+               rt : 0..(MaxS - 1), dn : {-1}] : q.rt < q.sn}
+  \cup {q \in [c : {1}, kind : {"unary", "stream"}, o : {"ok"}, cn : {0, MaxC}, sn : 1..MaxS, ch : {1}, sh : {1, MaxH},
+               rt : {-1}, dn : 0..(MaxS - 1)] : q.dn < q.sn}
 
 Init == AInit /\ pc = 1 /\ prog \in {Program(q) : q \in Params}
 Next == \/ pc <= Len(prog) /\ Step(prog[pc]) /\ pc' = pc + 1 /\ UNCHANGED prog
@@ -585,7 +627,7 @@ Finished == pc > Len(prog) => ph = "quiesced"
 
 \* Direct statement of the chain properties on the transcribed builder, n = 1..MaxS:
 \* entries 0..n-1 in order, handler once, exits n-1..0, a mark made at stage i is seen by every later stage
-ChainQ(n) == [c |-> 1, kind |-> "unary", o |-> "ok", cn |-> 0, sn |-> n, ch |-> 1, sh |-> 1]
+ChainQ(n) == [c |-> 1, kind |-> "unary", o |-> "ok", cn |-> 0, sn |-> n, ch |-> 1, sh |-> 1, rt |-> -1, dn |-> -1]
 Proj(log, name) == SelectSeq(log, LAMBDA e : e.ev = name)
 ChainShape ==
   \A n \in 1..MaxS :
